@@ -25,7 +25,15 @@ SPANS = {"ES": ("2029-06", "2030-12"), "NK": ("2029-06", "2030-12"), "VX": ("203
 def _resolve(c, cfg):
     cls = CLASSES[cfg["cls"]]
     off = cfg.get("month", 0)
-    ch = FutureChain(cls, *SPANS[cfg["cls"]], month=off)
+    if cfg.get("listed"):
+        # the chain is given as an explicit list of contracts, in a permuted order
+        base = FutureChain(cls, *SPANS[cfg["cls"]]).contracts
+        perm = cfg["listed"]
+        ch = FutureChain(contracts=[base[i % len(base)] for i in perm], month=off)
+        c.prove("C11:explicitly-listed-contracts-are-sorted-by-last-trading-date",
+                all(a.last_trading_date < b.last_trading_date for a, b in zip(ch.contracts, ch.contracts[1:])))
+    else:
+        ch = FutureChain(cls, *SPANS[cfg["cls"]], month=off)
     cons = ch.contracts
     ltd = [x.last_trading_date for x in cons]
     lo = ltd[0] - timedelta(days=40)
@@ -181,6 +189,9 @@ def configs(tier):
     for name in CLASSES:
         for off in (0, 1):
             add(part="resolve", cls=name, month=off)
+    for name, perm in (("ES", [2, 0, 1]), ("ES", [1, 2, 0, 3]), ("ZN", [3, 1, 0, 2]), ("VX", [4, 0, 3, 1, 2])):
+        add(part="resolve", cls=name, month=0, listed=perm)
+    add(part="resolve", cls="ES", month=1, listed=[2, 3, 0, 1])
     for name in ("ES", "ZN", "VX"):
         for shape in ("long", "short"):
             add(part="roll", cls=name, shape=shape)
